@@ -23,6 +23,8 @@ structure Sess where
   zit : SList.ZipIter := {}
   sit : LSeq.Cursor := {}
   pst : PList.St := {}                              -- pointer-level model (Model/PSList.lean), run alongside
+  pit : PSList.PIter := {}                          -- pointer-level iterator (`CC_SListIter` fields as node ids)
+  pz  : PSList.PZip := {}                           -- pointer-level zip iterator
   phd : List (Option PList.Hdr) := [none, none, none, none]
   disp : Std.HashMap Nat Nat := {}                  -- node id -> display id (first-seen order, as the shim numbers the C nodes)
   dnext : Nat := 0
@@ -266,7 +268,7 @@ def stepCore (s : Sess) (c : Cmd) : Sess × String × String :=
     | "add_all" | "add_all_at" | "splice" | "splice_at" =>
       match getM s from_, getS s from_ with
       | some l2, some a2 =>
-        if from_ == k then fin1 s "st=- contract" else
+        if from_ == k && (c.op == "splice" || c.op == "splice_at") then fin1 s "st=- contract" else
         if c.op == "add_all" || c.op == "add_all_at" then
           let r := if c.op == "add_all" then SList.addAll l l2 m else SList.addAllAt l l2 idx m
           let q := if c.op == "add_all" then LSeq.addAll a a2 else LSeq.addAllAt false a a2 idx
@@ -351,7 +353,7 @@ def stepCore (s : Sess) (c : Cmd) : Sess × String × String :=
 /-! ### the pointer-level model alongside -/
 
 def plUnsupported : List String :=
-  ["it_add", "it_remove", "it_replace", "zit_add", "zit_remove", "zit_replace"]
+  []
 
 /-- rebuild the pointer-level state from the sequence-level one (fresh nodes, linked canonically) -/
 def resync (s : Sess) : Sess :=
@@ -393,6 +395,51 @@ def plStep (old s : Sess) (c : Cmd) : Sess :=
       | none => acc
       | some h => let d := PSList.destroy acc.1 h acc.2; (d.2.1, d.2.2)) (s.pst, m)
     chk { s with pst := r.1, phd := [none, none, none, none] } r.2
+  else if c.op == "it_new" then
+    match old.phd.getD k none with
+    | some h => { s with pit := PSList.piterInit h }
+    | none => s
+  else if c.op == "zit_new" then
+    let k2 := c.nat "o2" 1
+    if k2 ≥ NSLOT || k2 == k then s else
+    match old.phd.getD k none, old.phd.getD k2 none with
+    | some h1, some h2 => { s with pz := PSList.pzipInit h1 h2 }
+    | _, _ => s
+  else if c.op.startsWith "it_" || c.op.startsWith "zit_" then
+    -- the iterator fields are node ids, the surgery is that of the C text (no resynchronisation)
+    let want := if c.op.startsWith "it_" then 1 else 3
+    let sub := (c.op.drop (if want == 1 then 3 else 4)).toString
+    if old.itKind != want then s else
+    if want == 3 then
+      let z := old.pz
+      match old.phd.getD old.itO none, old.phd.getD old.itO2 none with
+      | some h1, some h2 =>
+        if sub == "next" then { s with pz := (PSList.pzipNext s.pst.heap z).2.2 }
+        else if sub == "add" then
+          if z.cur1 == none || z.cur2 == none then s else
+          let r := PSList.pzipAdd s.pst h1 h2 z (c.arg 0) (c.arg 1) m
+          chk { (setP (setP s old.itO r.2.1 (some r.2.2.1)) old.itO2 r.2.1 (some r.2.2.2.1)) with pz := r.2.2.2.2.1 } r.2.2.2.2.2
+        else if sub == "remove" then
+          let r := PSList.pzipRemove s.pst h1 h2 z m
+          chk { (setP (setP s old.itO r.2.2.1 (some r.2.2.2.1)) old.itO2 r.2.2.1 (some r.2.2.2.2.1)) with pz := r.2.2.2.2.2.1 } r.2.2.2.2.2.2
+        else if sub == "replace" then { s with pst := (PSList.pzipReplace s.pst z (c.arg 0) (c.arg 1)).2.2 }
+        else s
+      | _, _ => s
+    else
+      let it := old.pit
+      match old.phd.getD old.itO none with
+      | some h =>
+        if sub == "next" then { s with pit := (PSList.piterNext s.pst.heap it).2.2 }
+        else if sub == "add" then
+          if it.current == none then s else
+          let r := PSList.piterAdd s.pst h it (c.arg 0) m
+          chk { (setP s old.itO r.2.1 (some r.2.2.1)) with pit := r.2.2.2.1 } r.2.2.2.2
+        else if sub == "remove" then
+          let r := PSList.piterRemove s.pst h it m
+          chk { (setP s old.itO r.2.2.1 (some r.2.2.2.1)) with pit := r.2.2.2.2.1 } r.2.2.2.2.2
+        else if sub == "replace" then { s with pst := (PSList.piterReplace s.pst it (c.arg 0)).2.2 }
+        else s
+      | none => s
   else
   match old.phd.getD k none, getM old k with
   | some h, some _ =>
@@ -405,7 +452,7 @@ def plStep (old s : Sess) (c : Cmd) : Sess :=
     | "add_all" | "add_all_at" | "splice" | "splice_at" =>
       match old.phd.getD from_ none with
       | some h2 =>
-        if from_ == k then s else
+        if from_ == k && (c.op == "splice" || c.op == "splice_at") then s else
         if c.op == "add_all" || c.op == "add_all_at" then
           let r := if c.op == "add_all" then PSList.addAll s.pst h h2 m else PSList.addAllAt s.pst h h2 idx m
           chk (setP s k r.2.1 (some r.2.2.1)) r.2.2.2
